@@ -254,7 +254,11 @@ pub fn run_case(
             .filter(|p| p.prog == pi)
             .map(|p| p.fault.to_fault())
             .collect();
-        let world = World::new(em.spans.clone(), sc.stdin.clone(), fs.clone(), faults).shared();
+        let mut world0 = World::new(em.spans.clone(), sc.stdin.clone(), fs.clone(), faults);
+        for (row, c0, c1) in &em.code_lines {
+            world0.code_lines.insert(*row, (*c0, *c1));
+        }
+        let world = world0.shared();
         let r = run_program(&prep.programs[pi], &world, BUDGET);
         let w = world.borrow();
         let mut st = ProgStats {
@@ -295,6 +299,47 @@ pub fn run_case(
                     stage, location, message, w.cur_stmt
                 ),
             });
+        }
+        // ---- C11: positions of the instructions ----
+        if let Some((pc, row, col)) = w.pos_off_table {
+            out.found.push(Found {
+                property: "C11",
+                class: Class::Position,
+                key: "off_table".into(),
+                prog: pi,
+                stmt: None,
+                detail: format!(
+                    "instruction {} carries position {}:{}, which is not inside the text of any statement of the program ({} lines)",
+                    pc, row, col, em.rows
+                ),
+            });
+        }
+        // ---- C15 I1: a pop on an empty stack surfaces as a panic of the VM ----
+        if let Outcome::Panic { stage: "interpret", message, location } = &r.outcome {
+            let stack_words = [
+                "underflow",
+                "Expected normal state",
+                "Expected argument state",
+                "Expected state with arguments",
+                "removal index",
+                "Should have a VarPath",
+                "Should have function result",
+                "Not collecting arguments",
+            ];
+            let regs = location.contains("interpreter/main.rs") && message.contains("Option::unwrap()");
+            if regs || stack_words.iter().any(|w| message.contains(w)) {
+                out.found.push(Found {
+                    property: "C15",
+                    class: Class::Stack,
+                    key: format!("I1:{}", message.chars().take(40).collect::<String>()),
+                    prog: pi,
+                    stmt: None,
+                    detail: format!(
+                        "a VM stack was popped while empty (or a call frame was missing): {} at {}",
+                        message, location
+                    ),
+                });
+            }
         }
         // ---- C15: stack discipline / structure ----
         for v in &r.monitor.violations {
